@@ -78,7 +78,7 @@ LOG_PID = 66
 
 
 def sample_strings():
-    return {'StringIndex': {'hello world': 1, LOG_PROCESS_NAME: 2, '/usr/libexec/backboardd': 3, 'second message': 4,
+    return {'StringIndex': {'hello world': 1, LOG_PROCESS_NAME: 0, '/usr/libexec/backboardd': 3, 'second message': 4,
                             'com.apple.sub': 5, 'cat': 6, 'fmt %d': 7}}
 
 
@@ -94,5 +94,5 @@ def mandatory(cm, tid, **extra):
 
 
 def sample_logs():
-    return {'Events': [mandatory(1, 0x501, p=2, pid=LOG_PID, pip=3, lt=0),
+    return {'Events': [mandatory(1, 0x501, p=0, pid=LOG_PID, pip=3, lt=0),
                        mandatory(4, 0x502)]}
